@@ -76,7 +76,8 @@ def make_harness(nmax):
             loop = asyncio.new_event_loop()
             loop_errors = []
             loop.set_exception_handler(lambda lp, ctx: loop_errors.append(ctx))
-            saved = raw.listen
+            from engine.core import seam
+            saved = seam(raw, "listen")
             raw.listen = fake_listen
             hung_f14 = False
             try:
